@@ -310,7 +310,11 @@ func (a *List) M__iadd__(other Object) (Object, error) {
 		a.Extend(b.Items)
 		return a, nil
 	}
-	return NotImplemented, nil
+	// l += iterable extends in place from any iterable, like l.extend
+	if err := a.ExtendSequence(other); err != nil {
+		return nil, err
+	}
+	return a, nil
 }
 
 func (l *List) M__mul__(other Object) (Object, error) {
